@@ -14,6 +14,7 @@ import (
 	"verif/internal/gen"
 	"verif/internal/gt"
 	"verif/internal/h"
+	"verif/internal/ops"
 	"verif/internal/ref"
 )
 
@@ -24,6 +25,7 @@ type Case struct {
 	Reroot int       `json:"reroot"` // -1 or selector of the inner node the (unrooted) tree is re-rooted at first
 	CLI    bool      `json:"cli,omitempty"`
 	Listed bool      `json:"listed,omitempty"` // also: collect every proposal first, apply / undo them after the enumeration has returned
+	Hist   []ops.Op  `json:"history,omitempty"` // the tree was indexed and then edited in memory by these operations (it stays binary)
 }
 
 func genCase(t *rapid.T, thorough bool) Case {
@@ -35,7 +37,10 @@ func genCase(t *rapid.T, thorough bool) Case {
 	if len(c.Tree.Ch) == 3 && rapid.Bool().Draw(t, "rr") {
 		c.Reroot = rapid.IntRange(0, 1000).Draw(t, "rrat")
 	}
-	c.CLI = cli.Available() && c.Reroot < 0 && rapid.IntRange(0, 19).Draw(t, "cli") == 0
+	if c.Reroot < 0 && rapid.IntRange(0, 3).Draw(t, "hashist") == 0 {
+		c.Hist = ops.GenHistoryOf(t, []string{"reroot", "rotate", "sort", "rotate_node", "nni", "nni_undo", "nni_double", "shuffle_tips", "clone", "reinit", "scale_lengths", "reroot_first", "unroot", "rename_swap", "setname_swap"}, 3)
+	}
+	c.CLI = cli.Available() && c.Reroot < 0 && len(c.Hist) == 0 && rapid.IntRange(0, 19).Draw(t, "cli") == 0
 	c.Listed = rapid.Bool().Draw(t, "listed")
 	return c
 }
@@ -101,6 +106,19 @@ func run(c Case) (info, error) {
 			if err := t.Reroot(inner[c.Reroot%len(inner)]); err != nil {
 				return inf, fmt.Errorf("Reroot failed: %v", err)
 			}
+		}
+	}
+	if len(c.Hist) > 0 {
+		// the tree was used before: indexed, then edited in memory by operations that keep it binary
+		if err := t.ReinitIndexes(); err != nil {
+			return inf, err
+		}
+		if t2, _, ok, herr := ops.Replay(t, c.Hist); herr != nil {
+			return inf, herr
+		} else if ok {
+			t = t2
+		} else if t, err = gt.FromModel(c.Tree); err != nil {
+			return inf, err
 		}
 	}
 	before := t.Newick()
@@ -260,7 +278,7 @@ func run(c Case) (info, error) {
 func TestC17NNI(t *testing.T) {
 	h.Run(t, h.Spec[Case]{
 		Property: "C17", Name: "nni", Quick: 6000, Thorough: 320000,
-		Rule: "binary trees (4..12 tips, 5% up to 30/100; rooted with a root of degree 2 or unrooted; lengths, supports with p-values, inner names, comments), unrooted ones optionally re-rooted at another inner node first; full enumeration of NNIRearranger: count = 2 x branches whose ends both have three neighbours (= 2(n-3) unrooted), after Apply: structural invariant, same tips, exactly one split out and one in, lengths of all other splits unchanged, canonical topology different from the original and from every other neighbour, second Apply is a no-op; Undo restores byte-identical text, Undo without Apply is a no-op; text unchanged after the enumeration; in half of the cases all proposals of a second enumeration are kept and applied / undone after it has returned (same neighbours in the same order); 5% of the cases compare `gotree nni` with the library's list; non-trivial = >= 6 tips",
+		Rule: "binary trees (4..12 tips, 5% up to 30/100; rooted with a root of degree 2 or unrooted; lengths, supports with p-values, inner names, comments), in a quarter of the cases indexed and then edited in memory by 1-3 operations that keep the tree binary (re-root, rotate, NNI, names exchanged, copy ...) before the enumeration, unrooted ones optionally re-rooted at another inner node first; full enumeration of NNIRearranger: count = 2 x branches whose ends both have three neighbours (= 2(n-3) unrooted), after Apply: structural invariant, same tips, exactly one split out and one in, lengths of all other splits unchanged, canonical topology different from the original and from every other neighbour, second Apply is a no-op; Undo restores byte-identical text, Undo without Apply is a no-op; text unchanged after the enumeration; in half of the cases all proposals of a second enumeration are kept and applied / undone after it has returned (same neighbours in the same order); 5% of the cases compare `gotree nni` with the library's list; non-trivial = >= 6 tips",
 		Gen: genCase, Check: check,
 		Classify: func(c Case) (bool, []string) {
 			var l []string
